@@ -210,6 +210,15 @@ class BacklogScenario(NetScenario):
             if s.srv == srv and s.obj is not None and not s.obj.response.done():
                 st.violations.append(Violation("error-leaves-request-pending", "every request to the remote fails (%s)" % why,
                                                s.name + " pending", "messagemanager.py:dispatch_error", {}, key=why))
+            elif s.srv == srv and s.obj is not None and not getattr(s, "judged", False) and not s.obj.response.cancelled() \
+                    and s.obj.response.exception() is not None and s.first_tx is None:
+                # a request that never made it onto the wire fails for the reason the remote became unreachable - a network
+                # error - and not as if the peer had reset it
+                s.judged = True
+                e = s.obj.response.exception()
+                if not isinstance(e, error.NetworkError) or isinstance(e, error.MessageError) or (why == "timeout" and not isinstance(e, error.TimeoutError)):
+                    st.violations.append(Violation("held-back-request-fails-with-wrong-error", "a network error (%s), not a message-level one - nothing was ever sent, let alone reset" % why,
+                                                   core.exc_desc(e), "messagemanager.py:_retransmit", {}, key="class:" + why))
         st.open[srv] = None
         st.queue[srv] = []
 
